@@ -192,6 +192,12 @@ def gen_fields(path, el, e, diffs, ns):
             else:
                 gen_callable(pp, cb, f['callback']['signature'], diffs, ns)
         else:
+            cb = k.find(CORE + 'callback')
+            if cb is not None and f['type'].get('tag') == 'interface' and \
+                    (f['type'].get('interface') or '').split('.')[-1] == cb.get('name'):
+                # g-ir-generate expands a field typed with a (named) callback into an inline <callback> carrying the
+                # callback's name; whether that or a <type> reference is written is not fixed by the statement
+                continue
             gen_type(pp, k, f['type'], diffs, ns)
 
 
